@@ -6,7 +6,10 @@
 //   - writes, per case, the abstract image + filter for the Lean model and the implementation's
 //     canonical answer (error classes, or link verdict + kept elements per file, dependency
 //     lists, remapped source locations with their comment tags);
-//   - judges the implementation alone with the property oracle (oracle.go).
+//   - judges the implementation alone with the property oracle (oracle.go; optvalues.go for the
+//     links clause at option-value level);
+//   - runs the whole bufgen.Generator with several recording plugins that carry different
+//     per-plugin types / exclude_types filters (generate.go, oracle only).
 package main
 
 import (
@@ -15,6 +18,7 @@ import (
 	"fmt"
 	"io"
 	"log/slog"
+	"os"
 	"sort"
 	"strings"
 
@@ -179,7 +183,7 @@ type caseInput struct {
 }
 
 // oneCase runs one (image, filter) pair: correspondence line + oracle.
-func oneCase(run *hx.Run, image bufimage.Image, pre *prepared, in caseInput, replay string) {
+func oneCase(run *hx.Run, image bufimage.Image, pre *prepared, in caseInput, replay string, oracleOnly bool) {
 	f := in.Filter
 	n := pre.names
 	nameIDs := func(xs []string) []int {
@@ -200,7 +204,7 @@ func oneCase(run *hx.Run, image bufimage.Image, pre *prepared, in caseInput, rep
 	// include whose closure uses the option (which makes the extendee merely implicit, and the later
 	// upgrade of the extension does not re-walk it).  Such filters have no single expected answer:
 	// they are counted, judged by the order-insensitive oracle clauses, and not compared line by line.
-	orderDependent := false
+	orderDependent := oracleOnly
 	if len(f.Include) > 1 {
 		for _, i := range f.Include {
 			if e, ok := pre.elems[i]; ok && e.kind == "ext" {
@@ -210,6 +214,10 @@ func oneCase(run *hx.Run, image bufimage.Image, pre *prepared, in caseInput, rep
 				}
 			}
 		}
+	}
+	lazyOpt := false
+	if !orderDependent && lazilyExcludedOption(image, pre, f) {
+		orderDependent, lazyOpt = true, true
 	}
 	out, input, err := runFilter(image, f)
 	var answer string
@@ -236,6 +244,13 @@ func oneCase(run *hx.Run, image bufimage.Image, pre *prepared, in caseInput, rep
 		_, linkErr := protodesc.NewFiles(bufimage.ImageToFileDescriptorSet(out))
 		if run.Only >= 0 {
 			fmt.Printf("filter=%+v linkErr=%v\n", f, linkErr)
+			for _, of := range out.Files() {
+				var xs []string
+				for _, x := range of.FileDescriptorProto().Extension {
+					xs = append(xs, x.GetName())
+				}
+				fmt.Printf("   out %s deps=%v extensions=%v\n", of.Path(), of.FileDescriptorProto().Dependency, xs)
+			}
 		}
 		rs, rerr := resultSexp(out, n)
 		if rerr != nil {
@@ -258,14 +273,66 @@ func oneCase(run *hx.Run, image bufimage.Image, pre *prepared, in caseInput, rep
 	} else {
 		run.Count("mode:copy")
 	}
-	if orderDependent {
+	if oracleOnly {
+		run.Count("filter:addExtensions-order-dependent-workspace(oracle only)")
+		run.Eval()
+	} else if lazyOpt {
+		run.Count("filter:lazily-excluded-option-map-order-dependent(not compared line by line)")
+		run.Eval()
+	} else if orderDependent {
 		run.Count("filter:include-order-dependent(not compared line by line)")
 		run.Eval()
 	} else {
 		run.Case(line, answer, err == nil && len(out.Files()) > 0)
 		run.Sample(map[string]any{"filter": f, "answer_prefix": truncate(answer, 160)})
 	}
-	oracle(run, image, pre, in, out, input, err, replay, orderDependent)
+	oracle(run, image, pre, in, out, input, err, replay, orderDependent, oracleOnly)
+}
+
+// lazilyExcludedOption: a second source of map-order dependence.  A custom option whose extendee
+// (google.protobuf.*Options) or value type is excluded is only MARKED excluded when the closure
+// first meets a use of it - after that first use's value has been walked for Any payloads
+// (exploreCustomOptions: hasOption(unknown) = true, exploreOptionValueForAny, then addElement marks
+// the extension excluded).  Later uses are skipped.  Which use comes first depends on Go map
+// iteration: the order of the includes, and - even with a single include or none - the order in
+// which options.Range yields two such options set on ONE element (the walk of the first one's Any
+// payloads may reach, and thereby consume, the first use of the second).  The set of Any payload
+// types kept then has no single expected answer: counted, judged by the order-insensitive oracle
+// clauses, not compared line by line.
+func lazilyExcludedOption(image bufimage.Image, pre *prepared, f filterSpec) bool {
+	pkgOf := map[string]string{}
+	for _, fl := range image.Files() {
+		pkgOf[fl.Path()] = fl.FileDescriptorProto().GetPackage()
+	}
+	excluded := func(name string) bool {
+		e, ok := pre.elems[name]
+		if !ok {
+			return false
+		}
+		for _, x := range f.Exclude {
+			if _, isElem := pre.elems[x]; isElem {
+				if name == x || strings.HasPrefix(name, x+".") {
+					return true
+				}
+			} else if pkgOf[e.file] == x {
+				return true
+			}
+		}
+		return false
+	}
+	for name, e := range pre.elems {
+		if e.kind != "ext" || excluded(name) {
+			continue
+		}
+		fd := e.desc.(*descriptorpb.FieldDescriptorProto)
+		if !strings.HasPrefix(fd.GetExtendee(), ".google.protobuf.") || !strings.HasSuffix(fd.GetExtendee(), "Options") {
+			continue
+		}
+		if excluded(trimDot(fd.GetExtendee())) || (fd.TypeName != nil && excluded(trimDot(fd.GetTypeName()))) {
+			return true
+		}
+	}
+	return false
 }
 
 func truncate(s string, n int) string {
@@ -280,6 +347,14 @@ type prepared struct {
 	elems     map[string]elemInfo
 	fileTypes map[string][]string
 	sexp      string
+	resolved  *resolvedImage // options of the input image re-resolved against the image itself (lazily)
+}
+
+func (p *prepared) resolvedInput(image bufimage.Image) *resolvedImage {
+	if p.resolved == nil {
+		p.resolved = resolveImage(image)
+	}
+	return p.resolved
 }
 
 func prepare(image bufimage.Image) *prepared {
@@ -290,6 +365,10 @@ func prepare(image bufimage.Image) *prepared {
 }
 
 func main() {
+	if len(os.Args) > 1 && os.Args[1] == "--as-plugin" {
+		pluginMain()
+		return
+	}
 	run := hx.Start("C12")
 	defer run.Finish()
 	r := hx.NewRand(run.Seed)
@@ -307,12 +386,12 @@ func main() {
 		for _, inPlace := range []bool{false, true} {
 			in := caseInput{Name: w.name, Target: w.target, Imported: w.imported, Filter: filterSpec{Include: w.include, Exclude: w.exclude, InPlace: inPlace}}
 			run.Count("witness")
-			oneCase(run, image, pre, in, fmt.Sprintf("build/c12 --seed %d --tier %s --out /tmp/c12-replay --only %d   # witness %s", run.Seed, run.Tier, wi, w.name))
+			oneCase(run, image, pre, in, fmt.Sprintf("build/c12 --seed %d --tier %s --out /tmp/c12-replay --only %d   # witness %s", run.Seed, run.Tier, wi, w.name), false)
 		}
 	}
 
 	// 2. generated workspaces x generated filters
-	nWorkspaces := run.N(260, 4000)
+	nWorkspaces := run.N(300, 1600) // thorough: 2 seeds x (1600 x 8 lines of ~20 KB) stays under the 15 min / 200 MB budget
 	filtersPer := 8
 	for wi := 0; wi < nWorkspaces; wi++ {
 		idx := len(witnesses) + wi
@@ -342,17 +421,25 @@ func main() {
 			run.Count("gen:with-non-target-module")
 		}
 		pre := prepare(image)
+		oracleOnly := false
 		if !extensionsOrderIndependent(image, pre) {
 			// addExtensions ranges over a Go map while inserting into it: whether a message that
 			// becomes explicit during the loop gets its own extensions is unspecified.  Such
-			// workspaces are not compared line by line (the oracle still judges them).
-			run.Count("gen:addExtensions-order-dependent(skipped for correspondence)")
-			continue
+			// workspaces (every workspace with the extendable option message o.OptX is one) are not
+			// compared line by line; the order-insensitive oracle clauses still judge them.
+			run.Count("gen:addExtensions-order-dependent(oracle only)")
+			oracleOnly = true
+		}
+		for k, v := range ws.optStats {
+			run.CountN(k, v)
 		}
 		for fi := 0; fi < filtersPer; fi++ {
 			f := genFilter(wr, ws)
 			in := caseInput{Target: ws.sources[0], Imported: ws.sources[1], Filter: f}
-			oneCase(run, image, pre, in, fmt.Sprintf("build/c12 --seed %d --tier %s --out /tmp/c12-replay --only %d   # filter %d of that workspace", run.Seed, run.Tier, idx, fi))
+			oneCase(run, image, pre, in, fmt.Sprintf("build/c12 --seed %d --tier %s --out /tmp/c12-replay --only %d   # filter %d of that workspace", run.Seed, run.Tier, idx, fi), oracleOnly)
 		}
 	}
+
+	// 3. whole `buf generate` runs with per-plugin types / exclude_types (generate.go)
+	sectionGenerate(run, r.Fork(0x67656e))
 }
